@@ -250,3 +250,169 @@ Proof.
             destruct (rc_name c =? name); try discriminate; auto. }
       intros H. exfalso. apply (H c); [left; reflexivity|exact Hg].
 Qed.
+
+(* ---- one round of keepVisitorsRunning ---- *)
+Lemma vm_keep_loop_spec : forall l ok s, vm_wf s ->
+  NoDup (rc_keys l) ->
+  (forall k c, In (k, c) l -> rc_name c = k /\ rc_get (vm_cfgs s) k <> None) ->
+  let r := vm_keep_loop l ok s in
+  vm_wf (fst r) /\ vm_cfgs (fst r) = vm_cfgs s /\ vm_next s <= vm_next (fst r) /\
+  (forall n id, rc_get (vm_vis s) n = Some id -> rc_get (vm_vis (fst r)) n = Some id) /\
+  (forall n, ~ In n (rc_keys l) -> rc_get (vm_vis (fst r)) n = rc_get (vm_vis s) n) /\
+  (forall n, In n (rc_keys l) -> rc_get (vm_vis s) n = None ->
+     if ok n then exists id, vm_next s <= id /\ rc_get (vm_vis (fst r)) n = Some id /\ In (VMStarted id n) (snd r)
+     else rc_get (vm_vis (fst r)) n = None) /\
+  (forall e, In e (snd r) -> match e with VMClosed _ _ => False | _ => True end).
+Proof.
+  induction l as [|[k c] r IH]; intros ok s Hwf Hnd Hl; simpl.
+  - repeat split; auto; try lia; try contradiction; apply Hwf.
+  - inversion Hnd as [|? ? Hk Hr]; subst.
+    destruct (Hl k c (or_introl eq_refl)) as [Hname Hcfg]. rewrite Hname.
+    assert (Hl' : forall k' c', In (k', c') r -> rc_name c' = k' /\ rc_get (vm_cfgs s) k' <> None)
+      by (intros; apply Hl; right; assumption).
+    destruct (rc_get (vm_vis s) k) as [id0|] eqn:Hv.
+    + destruct (IH ok s Hwf Hr Hl') as (I1 & I2 & I3 & I4 & I5 & I6 & I7). cbv zeta in *.
+      split; [exact I1|]. split; [exact I2|]. split; [exact I3|]. split; [exact I4|]. split.
+      { intros n Hn. apply I5. intros H. apply Hn. right; assumption. }
+      split; [|exact I7].
+      intros n [Hn|Hn] Hnone; [subst; congruence|]. apply I6; auto.
+    + assert (Hc1 : rc_get (vm_cfgs s) (rc_name c) <> None) by (rewrite Hname; exact Hcfg).
+      assert (Hv1 : rc_get (vm_vis s) (rc_name c) = None) by (rewrite Hname; exact Hv).
+      pose proof (vm_start_spec s c (ok k) Hwf Hc1 Hv1) as Hst. cbv zeta in Hst.
+      destruct (vm_start s c (ok k)) as [s1 ev] eqn:Es. simpl in Hst.
+      destruct Hst as (S1 & S2 & S3 & S4 & S5). rewrite Hname in S4, S5.
+      assert (Hl1 : forall k' c', In (k', c') r -> rc_name c' = k' /\ rc_get (vm_cfgs s1) k' <> None)
+        by (intros k' c' Hin; rewrite S2; apply Hl'; assumption).
+      destruct (IH ok s1 S1 Hr Hl1) as (I1 & I2 & I3 & I4 & I5 & I6 & I7). cbv zeta in *.
+      destruct (vm_keep_loop r ok s1) as [s2 evs] eqn:El. simpl in *.
+      split; [exact I1|]. split; [congruence|]. split; [lia|]. split.
+      { intros n id Hn. apply I4. rewrite S4; auto. intros Heq. subst. congruence. }
+      split.
+      { intros n Hn. rewrite I5; [|intros H; apply Hn; right; assumption].
+        apply S4. intros Heq. subst. apply Hn. left; reflexivity. }
+      split.
+      { intros n [Hn|Hn] Hnone.
+        - subst n. destruct (ok k).
+          + destruct S5 as (A & B & C). exists (vm_next s). split; [lia|]. split; [apply I4; exact A|].
+            apply in_or_app. left. rewrite C. left; reflexivity.
+          + destruct S5 as (A & B). subst s1. rewrite I5; auto.
+        - assert (n <> k) by (intros Heq; subst; contradiction).
+          assert (Hn1 : rc_get (vm_vis s1) n = None) by (rewrite S4; auto).
+          specialize (I6 n Hn Hn1). destruct (ok n); auto.
+          destruct I6 as (id & A & B & C). exists id. split; [lia|]. split; auto. apply in_or_app; right; auto. }
+      intros e Hin. apply in_app_or in Hin. destruct Hin as [Hin|Hin]; [|apply I7; auto].
+      destruct (ok k).
+      * destruct S5 as (_ & _ & C). rewrite C in Hin. destruct Hin as [Hin|[]]. subst; exact I.
+      * destruct S5 as (_ & C). rewrite C in Hin. destruct Hin as [Hin|[]]. subst; exact I.
+Qed.
+
+(* keepVisitorsRunning: running visitors are left alone, the configuration table is untouched, and
+   every configured visitor that is not running is started again; it runs iff Run() succeeds *)
+Theorem vm_keep_restarts : forall s ok, vm_wf s ->
+  let r := vm_keep s ok in
+  vm_wf (fst r) /\ vm_cfgs (fst r) = vm_cfgs s /\
+  (forall n id, rc_get (vm_vis s) n = Some id -> rc_get (vm_vis (fst r)) n = Some id) /\
+  (forall n c, rc_get (vm_cfgs s) n = Some c -> rc_get (vm_vis s) n = None ->
+     if ok n then exists id, vm_next s <= id /\ rc_get (vm_vis (fst r)) n = Some id /\ In (VMStarted id n) (snd r)
+     else rc_get (vm_vis (fst r)) n = None) /\
+  (forall e, In e (snd r) -> match e with VMClosed _ _ => False | _ => True end).
+Proof.
+  intros s ok Hwf. unfold vm_keep. pose proof Hwf as (W1 & W2 & W3 & W4).
+  assert (Hl : forall k c, In (k, c) (vm_cfgs s) -> rc_name c = k /\ rc_get (vm_cfgs s) k <> None).
+  { intros k c Hin. pose proof (rc_in_get _ _ _ W1 Hin) as Hg. split; [apply (W3 k c Hg)|congruence]. }
+  destruct (vm_keep_loop_spec (vm_cfgs s) ok s Hwf W1 Hl) as (I1 & I2 & I3 & I4 & I5 & I6 & I7). cbv zeta in *.
+  split; [exact I1|]. split; [exact I2|]. split; [exact I4|]. split; [|exact I7].
+  intros n c Hg Hv. apply I6; auto. eapply rc_get_some_in_keys; eauto.
+Qed.
+
+Corollary vm_keep_all_running : forall s ok, vm_wf s -> (forall n, ok n = true) ->
+  forall n c, rc_get (vm_cfgs (fst (vm_keep s ok))) n = Some c -> rc_get (vm_vis (fst (vm_keep s ok))) n <> None.
+Proof.
+  intros s ok Hwf Hok n c Hg. destruct (vm_keep_restarts s ok Hwf) as (_ & H2 & H3 & H4 & _). cbv zeta in *.
+  rewrite H2 in Hg. destruct (rc_get (vm_vis s) n) as [id|] eqn:Hv.
+  - rewrite (H3 n id Hv). discriminate.
+  - specialize (H4 n c Hg Hv). rewrite Hok in H4. destruct H4 as (id & _ & H & _). congruence.
+Qed.
+
+(* ---- UpdateAll ---- *)
+Lemma vm_del_loop_all_keep : forall cm l s,
+  (forall k old, In (k, old) l -> rc_keep cm k old = true) -> vm_del_loop cm l s = (s, []).
+Proof.
+  intros cm l. induction l as [|[k old] r IH]; intros s H; simpl; auto.
+  rewrite (H k old (or_introl eq_refl)). apply IH. intros; apply H; right; assumption.
+Qed.
+
+Theorem vm_update_converges : forall s cfgs ok, vm_wf s ->
+  let r := vm_update s cfgs ok in
+  vm_wf (fst r) /\
+  (forall n, rc_get (vm_cfgs (fst r)) n = rc_first cfgs n) /\
+  (* unchanged entries: same visitor object (or still none), nothing closed, nothing started *)
+  (forall n c, rc_get (vm_cfgs s) n = Some c -> rc_first cfgs n = Some c ->
+     rc_get (vm_vis (fst r)) n = rc_get (vm_vis s) n /\
+     (forall e, In e (snd r) -> match e with VMClosed _ m | VMStarted _ m | VMStartFailed m => m <> n end)) /\
+  (* entries that disappeared or changed: their running visitor was closed *)
+  (forall n c id, rc_get (vm_cfgs s) n = Some c -> rc_first cfgs n <> Some c ->
+     rc_get (vm_vis s) n = Some id -> In (VMClosed id n) (snd r)) /\
+  (* new and changed entries are started; they run iff Run() succeeds, with a fresh visitor object *)
+  (forall n c', rc_first cfgs n = Some c' -> rc_get (vm_cfgs s) n <> Some c' ->
+     if ok n then exists id, vm_next s <= id /\ rc_get (vm_vis (fst r)) n = Some id /\ In (VMStarted id n) (snd r)
+     else rc_get (vm_vis (fst r)) n = None /\ In (VMStartFailed n) (snd r)) /\
+  (* names that are not configured any more have no visitor *)
+  (forall n, rc_first cfgs n = None -> rc_get (vm_vis (fst r)) n = None).
+Proof.
+  intros s cfgs ok Hwf. pose proof Hwf as (W1 & W2 & W3 & W4). unfold vm_update.
+  set (cm := rc_cfgs_map cfgs).
+  destruct (vm_del_loop_spec cm (vm_cfgs s) s W1) as (D1 & D2 & D3 & D4 & D5 & D6 & D7). cbv zeta in *.
+  destruct (vm_del_loop cm (vm_cfgs s) s) as [s1 ev1] eqn:Ed. simpl in *.
+  assert (Hdel : forall n, vm_deleted cm (vm_cfgs s) n =
+                           match rc_get (vm_cfgs s) n with Some old => negb (rc_keep cm n old) | None => false end)
+    by (intros n; apply vm_deleted_get; exact W1).
+  assert (Hwf1 : vm_wf s1).
+  { split; [apply D6; exact W1|]. split; [apply D7; exact W2|]. split.
+    - intros n c H. rewrite D2 in H. destruct (vm_deleted cm (vm_cfgs s) n); [discriminate|]. apply (W3 n c H).
+    - intros n id H. rewrite D3 in H. rewrite D2. destruct (vm_deleted cm (vm_cfgs s) n); [discriminate|].
+      rewrite D1. apply (W4 n id H). }
+  destruct (vm_add_loop_spec cfgs ok s1 Hwf1) as (A1 & A2 & A3 & A4 & A5 & A6 & A7 & _). cbv zeta in *.
+  destruct (vm_add_loop cfgs ok s1) as [s2 ev2] eqn:Ea. simpl in *.
+  assert (Hs1 : forall n, rc_get (vm_cfgs s1) n =
+                          match rc_get (vm_cfgs s) n with
+                          | Some old => if rc_keep cm n old then Some old else None
+                          | None => None end).
+  { intros n. rewrite D2, Hdel. destruct (rc_get (vm_cfgs s) n) as [old|]; auto. destruct (rc_keep cm n old); reflexivity. }
+  split; [exact A1|]. split.
+  { intros n. rewrite A3, Hs1. destruct (rc_get (vm_cfgs s) n) as [old|] eqn:Hg; auto.
+    destruct (rc_keep cm n old) eqn:K; auto. apply rc_keep_spec in K. congruence. }
+  split.
+  { intros n c Hg Hf. assert (K : rc_keep cm n c = true) by (apply rc_keep_spec; exact Hf).
+    assert (Hc1 : rc_get (vm_cfgs s1) n = Some c) by (rewrite Hs1, Hg, K; reflexivity).
+    split.
+    - rewrite A4; [|congruence]. rewrite D3, Hdel, Hg, K. reflexivity.
+    - intros e Hin. apply in_app_or in Hin. destruct Hin as [Hin|Hin].
+      + destruct (D5 e Hin) as (id & m & He). subst e. intros Heq. subst m.
+        apply D4 in Hin. destruct Hin as [Hd _]. rewrite Hdel, Hg, K in Hd. discriminate.
+      + specialize (A7 e Hin). destruct e; try contradiction; intros Heq; subst; congruence. }
+  split.
+  { intros n c id Hg Hf Hv. apply in_or_app. left. apply D4. split; auto.
+    rewrite Hdel, Hg. destruct (rc_keep cm n c) eqn:K; auto. apply rc_keep_spec in K. contradiction. }
+  split.
+  { intros n c' Hf Hne. assert (Hc1 : rc_get (vm_cfgs s1) n = None).
+    { rewrite Hs1. destruct (rc_get (vm_cfgs s) n) as [old|] eqn:Hg; auto.
+      destruct (rc_keep cm n old) eqn:K; auto. apply rc_keep_spec in K. congruence. }
+    specialize (A6 n c' Hc1 Hf). destruct (ok n).
+    - destruct A6 as (id & X & Y & Z). exists id. split; [lia|]. split; auto. apply in_or_app; right; auto.
+    - destruct A6 as (X & Y). split; auto. apply in_or_app; right; auto. }
+  intros n Hf. apply A5; auto. rewrite Hs1. destruct (rc_get (vm_cfgs s) n) as [old|] eqn:Hg; auto.
+  destruct (rc_keep cm n old) eqn:K; auto. apply rc_keep_spec in K. congruence.
+Qed.
+
+(* loading the identical set again (any duplicates, any Run() results) changes nothing *)
+Theorem vm_update_identical : forall s cfgs ok1 ok2, vm_wf s ->
+  vm_update (fst (vm_update s cfgs ok1)) cfgs ok2 = (fst (vm_update s cfgs ok1), []).
+Proof.
+  intros s cfgs ok1 ok2 Hwf. destruct (vm_update_converges s cfgs ok1 Hwf) as (H1 & H2 & _). cbv zeta in *.
+  set (s1 := fst (vm_update s cfgs ok1)) in *. pose proof H1 as (W1 & _).
+  unfold vm_update. rewrite vm_del_loop_all_keep.
+  - destruct (vm_add_loop_spec cfgs ok2 s1 H1) as (_ & _ & _ & _ & _ & _ & _ & A8). cbv zeta in A8.
+    rewrite A8; auto. intros c Hin Hnone. rewrite H2 in Hnone. apply (rc_first_in cfgs c Hin Hnone).
+  - intros k old Hin. apply rc_keep_spec. rewrite <- H2. apply rc_in_get; auto.
+Qed.
